@@ -2,6 +2,7 @@
 import Sip.Message
 import Generated.Tables
 import Drv.Util
+import Side.Config
 open GoStd Sip
 
 namespace Driver
@@ -105,6 +106,9 @@ def execCfg (op : String) (a : List String) : String :=
   | "keep", [w] =>
     let l := toLower (unhex w)
     if [str "true", str "yes", str "1", str "on", str "t", str "y"].contains l then "true" else "false"
+  | "deftimeout", [cfgv, env] =>
+    -- the dialog timeout a service gets: its own setting when positive, else DEFAULT_DIALOG_TIMEOUT (when set and numeric), else 1200
+    toString (Side.Config.dialogTimeout (parseInt cfgv) (if env == "~" then none else some (unhex env)))
   | "hosts", _ :: name :: pairs =>
     -- the table is a map filled in order: the LAST entry for a name wins (the service's section comes after the global one)
     let rec last (acc : Option Bytes) : List String → Option Bytes
